@@ -27,9 +27,31 @@ def optional_params(cls):
     return [n for n in sig.parameters if n not in ("self",) and n not in SKIP and n not in req]
 
 
+def enums(cname, name):
+    """fields with a finite admissible value set: every member is driven (free choice), not one representative"""
+    from autobahn.wamp import message as M
+    if name == "request_type":
+        return [M.Call.MESSAGE_TYPE, M.Subscribe.MESSAGE_TYPE, M.Unsubscribe.MESSAGE_TYPE, M.Publish.MESSAGE_TYPE, M.Register.MESSAGE_TYPE,
+                M.Unregister.MESSAGE_TYPE, M.Invocation.MESSAGE_TYPE]
+    if name == "match":
+        return ["prefix", "exact", "wildcard"]
+    if name == "invoke":
+        return ["roundrobin", "single", "first", "last", "random"]
+    if name == "mode":
+        return ["kill", "killnowait"] + (["skip"] if cname == "Cancel" else [])
+    if name == "enc_serializer":
+        return ["json", "msgpack", "cbor", "ubjson"]
+    return None
+
+
 def value(sx, cname, name, tag=""):
     """a valid value for constructor parameter `name` (ids / counters are free integers)"""
     from autobahn.wamp import role
+    en = enums(cname, name)
+    if en is not None:
+        if hasattr(sx, "choice"):
+            return en[sx.choice("%s.%s%s" % (cname, name, tag), len(en))]
+        return en[0]
     if name in IDS:
         lo = 0 if name in ("request",) and cname in ("Unregistered", "Unsubscribed") else 1
         return sx.int("%s.%s%s" % (cname, name, tag), lo if name != "request" else 0, 2 ** 53)
